@@ -437,6 +437,19 @@ def rule_r2(chk, prog, cg, zone):
                                               ast.ListComp, ast.JoinedStr))
                     return False
                 ok = bool(ds) and all(nonnull(d) for d in ds)
+                if not ok:
+                    # "x = None" defaults that every path to this use either
+                    # overwrites or refutes by a test
+                    from ..cfg import none_def_reaches
+                    others = [d for d in ds if d != 'param' and not (
+                        isinstance(d.ast, ast.Assign) and isinstance(
+                            d.ast.value, ast.Constant)
+                        and d.ast.value.value is None)]
+                    nones = [d for d in ds if d != 'param' and d not in others]
+                    # only the explicit "= None" initialisations make the
+                    # name possibly None (that is how it entered none_vars)
+                    ok = 'param' not in ds and not any(
+                        none_def_reaches(f, d.ast, nd, v) for d in nones)
             nobl += 1
             chk.check('C04.R2', where, f'{unparse(nd)} with {v} possibly '
                       'None', ok,
